@@ -718,6 +718,34 @@ GENERATORS = {'package_json': gen_package_json, 'deno_json': gen_deno_json, 'car
 FMT_CODE = {'package_json': 0, 'deno_json': 1, 'cargo_toml': 2, 'pyproject_toml': 3, 'pnpm_workspace': 4, 'github_actions': 5, 'go_mod': 6}
 
 
+def multiline_yaml(rnd, fmt, g):
+    """a generated YAML manifest in which one dependency scalar spans two lines (quoted, plain continuation, folded /
+    literal block scalar); None when the drawn document has no candidate line"""
+    import re as _re
+    t = g(rnd).text
+    ls = t.split('\n')
+    idx = [k for k, l in enumerate(ls) if (_re.search(r'uses[\'"]?:\s*\S', l) if fmt == 'github_actions' else _re.match(r'^\s+\S+:\s*\S', l))]
+    if not idx:
+        return None
+    k = rnd.choice(idx)
+    key, val = ls[k].split(':', 1)
+    val = val.split(' #')[0].strip().strip('"\'')
+    ind = ' ' * (len(key) - len(key.lstrip()) + 4)
+    cut = rnd.randrange(1, max(2, len(val)))
+    form = rnd.choice(['dq', 'sq', 'plain', 'fold', 'lit'])
+    if form == 'dq':
+        ls[k] = key + ': "' + val[:cut] + '\n' + ind + val[cut:] + '"'
+    elif form == 'sq':
+        ls[k] = key + ": '" + val[:cut] + '\n' + ind + val[cut:] + "'"
+    elif form == 'plain':
+        ls[k] = key + ': ' + val[:cut] + '\n' + ind + val[cut:]
+    elif form == 'fold':
+        ls[k] = key + ': >-\n' + ind + val[:cut] + '\n' + ind + val[cut:]
+    else:
+        ls[k] = key + ': |\n' + ind + val
+    return '\n'.join(ls)
+
+
 def mutate(rnd, text):
     """malformed stream: truncation, token splicing, Unicode injection, deletion"""
     k = rnd.random()
